@@ -67,39 +67,58 @@ Lemma ex_nonvacuous :
   accepts_c07 t = true.
 Proof. vm_compute. repeat split; auto 10. Qed.
 
-(* F5: the hypothesis "message ids do not wrap within the run" of the liveness theorem is
-   necessary.  One exchange answered piggybacked (last_ack_mid := 101), 65535 exchanges answered
-   by an empty ACK and a separate Confirmable response (they do not touch last_ack_mid), then the
-   request that carries mid 101 again: its piggybacked response is discarded as a duplicate, the
-   request has left the send queue - neither handler nor NACK.  Stated on the client alone with
-   an honest peer that echoes mid and token of every request. *)
-Fixpoint ex_wrap_sep (n : nat) (mid tok smid : Z) : list ex_cin :=
+(* F5: message-id wrap.
+   (a) the client's own ids: one exchange answered piggybacked (last_ack_mid := 101), 65535
+       exchanges answered by an empty ACK and a separate Confirmable response (they do not touch
+       last_ack_mid), then the request that carries mid 101 again.  Before the fix (/repo: a new
+       Confirmable whose mid equals last_ack_mid invalidates it) its piggybacked response was
+       discarded as a duplicate; now it is delivered.
+   (b) the peer's ids: a separate Confirmable response with mid 7000, 65535 exchanges answered by
+       separate Non-confirmable responses (mids 7001 ...; they do not touch last_con_mid), then a
+       separate Confirmable response whose mid is 7000 again: discarded as a duplicate (and
+       acknowledged, so the server stops), the request has left the send queue - neither handler
+       nor NACK.  The hypothesis "the server's message ids do not wrap within the run" of the
+       liveness theorem is necessary.
+   Stated on the client alone with an honest peer that echoes mid and token of every request. *)
+Fixpoint ex_wrap_mid (n : nat) (con : bool) (mid tok smid : Z) : list ex_cin :=
   match n with
   | O => []
   | S k =>
       let m := (mid + 1) mod 65536 in
-      [ExSend 1; ExRx (ExAckE m) true; ExRx (ExConR (smid mod 65536) (tok + 1)) true]
-      ++ ex_wrap_sep k m (tok + 2) (smid + 1)
+      [ExSend 1; ExRx (ExAckE m) true;
+       ExRx (if con then ExConR (smid mod 65536) (tok + 1) else ExNonR (smid mod 65536) (tok + 1)) true]
+      ++ ex_wrap_mid k con m (tok + 2) (smid + 1)
   end.
 
+(* (a) *)
 Definition ex_wrap_inputs (n : nat) : list ex_cin :=
-  [ExSend 0; ExRx (ExAckR 101 1) true] ++ ex_wrap_sep n 101 1 7001 ++
+  [ExSend 0; ExRx (ExAckR 101 1) true] ++ ex_wrap_mid n true 101 1 7001 ++
   [ExSend 0; ExRx (ExAckR ((101 + Z.of_nat n + 1) mod 65536) (2 + 2 * Z.of_nat n)) true].
 
-(* the last two observed steps and the send queue afterwards *)
-Definition ex_wrap_summary (n : nat) : ex_obs * ex_obs * option ex_qent :=
-  let r := ex_cli_run 4 (ex_cli_init 100 0) (ex_wrap_inputs n) in
-  let t := snd r in
-  (nth (length t - 2) t (ExTimer, []), nth (length t - 1) t (ExTimer, []), ex_c_q (fst r)).
+(* (b) *)
+Definition ex_wrap_inputs_con (n : nat) : list ex_cin :=
+  [ExSend 1; ExRx (ExAckE 101) true; ExRx (ExConR 7000 1) true] ++ ex_wrap_mid n false 101 2 7001 ++
+  [ExSend 1; ExRx (ExAckE ((101 + Z.of_nat n + 1) mod 65536)) true;
+   ExRx (ExConR ((7000 + Z.of_nat n + 1) mod 65536) (3 + 2 * Z.of_nat n)) true].
 
-Lemma ex_wrap_refuted :
-  ex_wrap_summary (Z.to_nat 65535) =
-  ((ExSend 0, [ExTx (ExReq 101 131072 0)]), (ExRx (ExAckR 101 131072) true, []), None).
+(* the last observed step and the send queue afterwards *)
+Definition ex_wrap_summary (ins : list ex_cin) : ex_obs * option ex_qent :=
+  let r := ex_cli_run 4 (ex_cli_init 100 0) ins in
+  let t := snd r in
+  (nth (length t - 1) t (ExTimer, []), ex_c_q (fst r)).
+
+Lemma ex_wrap_own_delivered :
+  ex_wrap_summary (ex_wrap_inputs (Z.to_nat 65535)) =
+  ((ExRx (ExAckR 101 131072) true, [ExResp 2 101 131072 131072]), None).
+Proof. vm_compute. reflexivity. Qed.
+
+Lemma ex_wrap_peer_refuted :
+  ex_wrap_summary (ex_wrap_inputs_con (Z.to_nat 65535)) =
+  ((ExRx (ExConR 7000 131073) true, [ExTx (ExAckE 7000)]), None).
 Proof. vm_compute. reflexivity. Qed.
 
 (* one exchange fewer and the same response is delivered *)
-Lemma ex_wrap_not_yet :
-  ex_wrap_summary (Z.to_nat 65534) =
-  ((ExSend 0, [ExTx (ExReq 100 131070 0)]),
-   (ExRx (ExAckR 100 131070) true, [ExResp 2 100 131070 131070]), None).
+Lemma ex_wrap_peer_not_yet :
+  ex_wrap_summary (ex_wrap_inputs_con (Z.to_nat 65534)) =
+  ((ExRx (ExConR 6999 131071) true, [ExResp 0 6999 131071 (-1); ExTx (ExAckE 6999)]), None).
 Proof. vm_compute. reflexivity. Qed.
